@@ -1012,7 +1012,7 @@ def readGraph(input_file,
             except ValueError:
                 pass
             G = graph_class.normalize(G)
-        except TypeError:
+        except (TypeError, RecursionError):
             raise ValueError('Parse Error in dot file')
 
     elif file_format == 'gml':
@@ -1037,7 +1037,8 @@ def readGraph(input_file,
         except UnicodeEncodeError as errmsg:
             raise ValueError(
                 "[Non-ascii chars in GML file] {} ".format(errmsg))
-        except (TypeError, AttributeError, IndexError, KeyError) as errmsg:
+        except (TypeError, AttributeError, IndexError, KeyError,
+                RecursionError) as errmsg:
             # on malformed input the GML parser of networkx may fail in
             # other ways, and the graph may be of the wrong kind
             # (e.g. undirected where a directed one is expected)
